@@ -4,9 +4,13 @@ set -u
 P="$(readlink -f "$1")"; ID="$2"; TIER="${3:-quick}"
 cd /verif
 git -C /repo apply "$P" || { echo "patch does not apply to /repo"; exit 2; }
+# the evidence file is rewritten by every run: keep the one from the unchanged tree
+cp -f evidence/$ID.json work/evidence-$ID.keep 2>/dev/null
 start=$(date +%s)
 out=$(./check "$ID" "$TIER" 2>&1); rc=$?
 end=$(date +%s)
 git -C /repo checkout -- .
+cp -f evidence/$ID.json work/evidence-$ID.seeded 2>/dev/null
+[ -f work/evidence-$ID.keep ] && mv -f work/evidence-$ID.keep evidence/$ID.json
 echo "$out" | grep -E "VIOLATION|signature=|INCONCLUSIVE" | head -4
 echo "check=$ID tier=$TIER exit=$rc secs=$((end-start))"
